@@ -321,6 +321,34 @@ def _run_built(ctx: RunContext, built: dict, configs: list[dict], variables=None
                 raise
 
 
+def _run_restarts(ctx: RunContext, pm) -> None:
+    """One EnsembleOptimizer object (public class of ropt.optimization) started at each point of scn["starts"] in
+    turn: the user's own restart loop without a plan.  ctx.restart_marks holds the length of the fake back-end's
+    request log before each start."""
+    from ropt.config.enopt import EnOptConfig
+    from ropt.ensemble_evaluator import EnsembleEvaluator
+    from ropt.optimization import EnsembleOptimizer
+
+    scn = ctx.scn
+    cfg = prepare_config(scn["configs"][0], ctx)
+    config = EnOptConfig.model_validate(cfg, context=ctx.transforms)
+    ensemble_evaluator = EnsembleEvaluator(config, ctx.transforms, ctx.evaluator, pm)
+    optimizer = EnsembleOptimizer(enopt_config=config, ensemble_evaluator=ensemble_evaluator, plugin_manager=pm,
+                                  signal_evaluation=lambda results=None: None)
+    ctx.restart_marks = []
+    for i, start in enumerate(scn["starts"]):
+        ctx.restart_marks.append(len(ctx.fake.log) if ctx.fake is not None else 0)
+        try:
+            code = optimizer.start(np.asarray(start, dtype=np.float64))
+            ctx.exits.append(("ret", i, None if code is None else int(code)))
+        except OptimizationAborted as exc:
+            ctx.exits.append(("abort_escaped", i, int(exc.exit_code)))
+        except Exception as exc:  # noqa: BLE001
+            ctx.exits.append(("exception", i, f"{type(exc).__name__}: {exc}"))
+            ctx.last_exception = exc
+            break
+
+
 def run_scenario(scn: dict, setup=None, shared: dict | None = None) -> RunContext:
     """Execute the scenario against the real ropt code; return the populated context.
 
@@ -362,9 +390,12 @@ def run_scenario(scn: dict, setup=None, shared: dict | None = None) -> RunContex
         for et in EventType:
             context.add_observer(et, lambda e, ctx=ctx: ctx.on_event(e, "obs"))
         ctx.context = context
-        built = _build_plan(ctx, context, scn["plan"], 0)
-        ctx.built = built
-        _run_built(ctx, built, scn["configs"])
+        if scn.get("entry") == "optimizer_object_restarts":
+            _run_restarts(ctx, pm)
+        else:
+            built = _build_plan(ctx, context, scn["plan"], 0)
+            ctx.built = built
+            _run_built(ctx, built, scn["configs"])
         evaluator.check_alias("end of run")
     finally:
         if getattr(ctx, "fake", None) is not None:
